@@ -294,5 +294,55 @@ pub fn run(s: &dyn Subject, ctx: &Ctx) -> Option<DeclReport> {
             break;
         }
     }
+    // the parse path: whenever FromStr answers with a *validation* error for a numeric text, the rule it names must really be violated by
+    // the number the text denotes - also for texts beyond the inner type's range (on a correct tree those are parse errors and nothing is asserted)
+    if matches!(spec.fam, Fam::Int { .. } | Fam::F32 | Fam::F64) && ctx.only_input.is_none() {
+        let nines = "9".repeat(41);
+        let mut texts: Vec<String> = ["300", "-300", "70000", "-70000", "5000000000", "-5000000000", "99999999999999999999", "-99999999999999999999",
+            "340282366920938463463374607431768211456", "-170141183460469231731687303715884105729", "256", "-129", "128", "65536", "-32769", "4294967296", "-2147483649",
+            "18446744073709551616", "-9223372036854775809", "-1"]
+            .iter()
+            .map(|x| x.to_string())
+            .collect();
+        texts.push(nines.clone());
+        texts.push(format!("-{nines}"));
+        for t in texts {
+            let Some(ParseObs::Validate { variant, display, .. }) = s.parse(&t) else { continue };
+            let Some(val) = spec.vals.iter().find(|v| v.variant() == variant) else { continue };
+            let Some(b) = val.bound() else { continue };
+            let Ok(rel) = read_relation(&display) else { continue };
+            // exact comparison of the denoted number with the bound (no rounding through f64 for integers)
+            let neg = t.starts_with('-');
+            let o = match b {
+                Value::I(v) => match t.parse::<i128>() {
+                    Ok(x) => x.cmp(v),
+                    Err(_) => if neg { std::cmp::Ordering::Less } else { std::cmp::Ordering::Greater },
+                },
+                Value::U(v) => match t.parse::<u128>() {
+                    Ok(x) => x.cmp(v),
+                    Err(_) => if neg { std::cmp::Ordering::Less } else { std::cmp::Ordering::Greater },
+                },
+                Value::F32(_) | Value::F64(_) => {
+                    let bf = match b { Value::F32(v) => f32::from_bits(*v) as f64, Value::F64(v) => f64::from_bits(*v), _ => unreachable!() };
+                    let Ok(x) = t.parse::<f64>() else { continue };
+                    if x == bf { continue }
+                    let Some(o) = x.partial_cmp(&bf) else { continue };
+                    o
+                }
+                _ => continue,
+            };
+            rep.executions += 1;
+            rep.guard("parse_path_validation_errors_checked");
+            if holds(rel, o) {
+                rep.violate(
+                    &format!("untruthful-message:parse-path:{}:says-{:?}", variant, rel),
+                    format!("{t:?}.parse()"),
+                    format!("{:?}", display),
+                    format!("a rule that {t} violates (the stated one, {:?} {}, holds for it)", rel, render_bound(b)),
+                    String::new(),
+                );
+            }
+        }
+    }
     Some(rep)
 }
